@@ -32,7 +32,7 @@ Proof. exact resume_good. Qed.
 Print Assumptions C01_map_resume_preserves_position.
 
 (* iterable datasets (worker-side dataset state, retirement of exhausted workers, fast-forward of stateless datasets): the
-   FULL statement is the target; it is proved below for snapshot interval 0 and, for every interval, for the main-process side;
+   FULL statement is the target; it is proved below for snapshot intervals 0 and 1 (the default) and, for every interval, for the main-process side;
    the rest is decided on every run by lockstep correspondence with real
    worker processes under scheduled arrival plus the direct oracle resumed = uninterrupted suffix. *)
 Definition C01_iter_statement : Prop :=
@@ -53,13 +53,27 @@ Theorem C01_iter_resume_exact_no_snapshots : forall c, c_kind c = KIter -> 0 < c
 Proof. exact iter_resume_exact_I0. Qed.
 Print Assumptions C01_iter_resume_exact_no_snapshots.
 
+(* iterable datasets, PROVED for every configuration with snapshot_every_n_steps = 1 — the DEFAULT: every batch takes a snapshot, every
+   task asks its worker for its state.  A checkpoint at ANY batch k, under EVERY arrival schedule of the interrupted run and EVERY
+   arrival schedule of the resumed run, resumes exactly batches k, k+1, ... then StopIteration.  (SdlIterResume.v: the worker
+   entries written at the last hand-out are exact — each is the worker's state after all its tasks before the slot that follows
+   the handed-out one, `entry_exact`; the remaining stream read from that slot is the walk the resumed iterator performs,
+   `walk_rest` + `refsuf_canon`; the main-process side is `C01_iter_resume_main_exact`.) *)
+Theorem C01_iter_resume_exact_every_step : forall c, c_kind c = KIter -> 0 < c_W c -> 0 < c_P c -> c_stateful c = true -> c_I c = 1 ->
+  forall k sched1 sched2, k <= length (reference c) ->
+  let '(sk, _) := replay c k (sdl_fresh c) sched1 in
+  let '(sr, sched') := sdl_resume c (state_dict sk) sched2 in
+  outcomes c (S (length (reference c) - k)) sr sched' = map OBatch (skipn k (reference c)) ++ [OStop].
+Proof. exact iter_resume_exact_I1. Qed.
+Print Assumptions C01_iter_resume_exact_every_step.
+
 (* iterable datasets, ANY snapshot interval, the MAIN-process side of a resume, PROVED for every state dict d and EVERY arrival
    schedule of the resumed run: if the per-worker entries of d restore workers whose remaining answers are the batch lists B
    (workers_ok: queue empty, alive, future answers = B w from its first task on; one placeholder in front for the workers below
    the start of the cycle), then the iterator built from d — workers restored, cycle started after the last yielded worker,
    prefetch_factor * num_workers tasks put, the steps since the snapshot replayed — yields exactly the rest of the walk over B,
-   then StopIteration; no assertion fires.  What remains a target for snapshot intervals >= 1 is the WORKER-ENTRY half: that
-   the entries a run writes into its snapshots are the workers' states after their last yielded batch. *)
+   then StopIteration; no assertion fires.  What remains a target for snapshot intervals >= 2 is the WORKER-ENTRY half: that
+   the entries a run writes into its snapshots are the workers' states after their last yielded batch (intervals 0 and 1: proved). *)
 Theorem C01_iter_resume_main_exact : forall c, c_kind c = KIter -> 0 < c_W c -> 0 < c_P c -> c_stateful c = true ->
   forall (B : nat -> list (list nat)) (d : sdict),
   workers_ok c B (S (sn_last (sd_snapshot d)) mod c_W c) (map (fun sv : wsave => wk_restored (fst sv, snd sv)) (sn_workers (sd_snapshot d))) ->
